@@ -11,6 +11,7 @@ import (
 	"net"
 	"io"
 	"os"
+	"runtime"
 	"sync"
 	"testing"
 	"time"
@@ -25,6 +26,11 @@ type vcase struct {
 	N      int      `json:"n"`
 	Domain []string `json:"domain"`
 	Msgs   []string `json:"msgs"`
+	// batch mode: the whole list goes through the encoder first and every result is kept by the caller
+	Items  []vcase `json:"items"`
+	Conc   int     `json:"conc"`   // > 1: that many concurrent callers (item i belongs to caller i mod conc)
+	Procs  int     `json:"procs"`  // GOMAXPROCS while the concurrent callers run (0 = unchanged)
+	Shared bool    `json:"shared"` // the caller reuses ONE input buffer for every call (sequential only)
 }
 type vres struct {
 	Ok     bool     `json:"ok"`
@@ -36,6 +42,20 @@ type vres struct {
 	Panic  string   `json:"panic"`
 	Msgs   []string `json:"msgs"`
 	Clean  bool     `json:"clean"` // recvLoop returned nil
+	// batch mode
+	Err2      string   `json:"err2"`
+	Labels    []string `json:"labels"`
+	Items     []vres   `json:"items,omitempty"`
+	Snap      string   `json:"snap"`      // the encoding as it was right after its own call (the driver's copy)
+	DecStable bool     `json:"decstable"` // the decoded value still looks as it did right after its own decode call
+	Alias     bool     `json:"alias"`     // informational: the decoded value changed when the decoder's input was overwritten afterwards
+}
+
+func errStr(err error) string {
+	if err == nil {
+		return ""
+	}
+	return err.Error()
 }
 
 // recording reader: the stream that crossed the connection
@@ -177,6 +197,304 @@ func (c *captureConn) SetDeadline(t time.Time) error      { return nil }
 func (c *captureConn) SetReadDeadline(t time.Time) error  { return nil }
 func (c *captureConn) SetWriteDeadline(t time.Time) error { return nil }
 
+
+// ---- batch mode ----
+// k calls of one encoder whose results are ALL kept by the caller (not copied: the point is to observe what the
+// caller holds), then k calls of the decoder on what is held, all decoded values kept as well, and only then is
+// anything looked at.  The driver records; the oracle is in c15.py.
+
+func runCalls(n, conc, procs int, call func(i int)) {
+	if conc <= 1 {
+		for i := 0; i < n; i++ {
+			call(i)
+		}
+		return
+	}
+	if procs > 0 {
+		prev := runtime.GOMAXPROCS(procs)
+		defer runtime.GOMAXPROCS(prev)
+	}
+	var wg sync.WaitGroup
+	for w := 0; w < conc; w++ {
+		wg.Add(1)
+		go func(w int) {
+			defer wg.Done()
+			for i := w; i < n; i += conc {
+				call(i)
+				runtime.Gosched()
+			}
+		}(w)
+	}
+	wg.Wait()
+}
+
+func guard(r *vres, f func()) {
+	defer func() {
+		if p := recover(); p != nil {
+			r.Panic = fmt.Sprint(p)
+		}
+	}()
+	f()
+}
+
+// enc(i) -> the bytes the caller holds; dec(i, held) -> a value the caller holds; view(i, value, r) writes the
+// value's projection into r.  afterEnc runs when the last encoder call has returned.
+func runBatch(c vcase, afterEnc func(), enc func(i int) ([]byte, error), dec func(i int, b []byte) (interface{}, error),
+	view func(i int, v interface{}, r *vres)) []vres {
+	n := len(c.Items)
+	res := make([]vres, n)
+	held := make([][]byte, n)
+	snaps := make([][]byte, n)
+	runCalls(n, c.Conc, c.Procs, func(i int) {
+		guard(&res[i], func() {
+			out, err := enc(i)
+			held[i] = out
+			res[i].Ok, res[i].Err = err == nil, errStr(err)
+			snaps[i] = append([]byte(nil), out...)
+		})
+	})
+	afterEnc()
+	for i := range res { // what the caller holds after the LAST call
+		res[i].Snap = hex.EncodeToString(snaps[i])
+		res[i].Out = hex.EncodeToString(held[i])
+	}
+	vals := make([]interface{}, n)
+	decSnap := make([]string, n)
+	project := func(i int) string {
+		var tmp vres
+		guard(&tmp, func() { view(i, vals[i], &tmp) })
+		b, _ := json.Marshal(tmp)
+		return string(b)
+	}
+	for i := range res {
+		if !res[i].Ok || res[i].Panic != "" {
+			continue
+		}
+		guard(&res[i], func() {
+			v, err := dec(i, held[i])
+			vals[i] = v
+			res[i].Ok2, res[i].Err2 = err == nil, errStr(err)
+		})
+		if res[i].Ok2 {
+			decSnap[i] = project(i)
+		}
+	}
+	for i := range res {
+		if res[i].Ok2 {
+			guard(&res[i], func() { view(i, vals[i], &res[i]) })
+			res[i].DecStable = project(i) == decSnap[i]
+		}
+	}
+	// informational: does the decoded value share storage with the decoder's input?
+	for i := range res {
+		if res[i].Ok2 {
+			for j := range held[i] {
+				held[i][j] ^= 0x5a
+			}
+			res[i].Alias = project(i) != decSnap[i]
+		}
+	}
+	return res
+}
+
+// the inputs of a batch and the buffer each call is given: its own, or (shared) ONE buffer the caller reuses
+func batchInputs(c vcase) (data [][]byte, input func(i int) []byte, afterEnc func()) {
+	n := len(c.Items)
+	data = make([][]byte, n)
+	maxLen := 0
+	for i, it := range c.Items {
+		data[i], _ = hex.DecodeString(it.Data)
+		if data[i] == nil {
+			data[i] = []byte{}
+		}
+		if len(data[i]) > maxLen {
+			maxLen = len(data[i])
+		}
+	}
+	shared := make([]byte, maxLen)
+	input = func(i int) []byte {
+		if !c.Shared || c.Conc > 1 {
+			return data[i]
+		}
+		in := shared[:len(data[i])]
+		copy(in, data[i])
+		return in
+	}
+	afterEnc = func() { // the caller goes on using its input buffer
+		for j := range shared {
+			shared[j] = 0xa5
+		}
+	}
+	return
+}
+
+func bytesView(i int, v interface{}, r *vres) {
+	b, _ := v.([]byte)
+	r.Out2 = hex.EncodeToString(b)
+}
+
+// notifyConn is the transport of a DNSPacketConn under test: what is written is recorded (copied, as a socket
+// would), what is read comes from a script handed out back to back, after which Read blocks until Close.
+type notifyConn struct {
+	mu      sync.Mutex
+	wrote   [][]byte
+	wroteCh chan struct{}
+	script  [][]byte
+	drained chan struct{} // closed when Read is called with the script exhausted
+	dOnce   sync.Once
+	closed  chan struct{}
+	cOnce   sync.Once
+}
+
+func newNotifyConn(script [][]byte) *notifyConn {
+	return &notifyConn{wroteCh: make(chan struct{}, 1024), script: script, drained: make(chan struct{}), closed: make(chan struct{})}
+}
+func (c *notifyConn) Read(b []byte) (int, error) {
+	c.mu.Lock()
+	if len(c.script) > 0 {
+		d := c.script[0]
+		c.script = c.script[1:]
+		c.mu.Unlock()
+		return copy(b, d), nil
+	}
+	c.mu.Unlock()
+	c.dOnce.Do(func() { close(c.drained) })
+	<-c.closed
+	return 0, io.EOF
+}
+func (c *notifyConn) Write(b []byte) (int, error) {
+	c.mu.Lock()
+	c.wrote = append(c.wrote, append([]byte{}, b...))
+	c.mu.Unlock()
+	c.wroteCh <- struct{}{}
+	return len(b), nil
+}
+func (c *notifyConn) Close() error                       { c.cOnce.Do(func() { close(c.closed) }); return nil }
+func (c *notifyConn) LocalAddr() net.Addr                { return queuepacketconn.DummyAddr{} }
+func (c *notifyConn) RemoteAddr() net.Addr               { return queuepacketconn.DummyAddr{} }
+func (c *notifyConn) SetDeadline(t time.Time) error      { return nil }
+func (c *notifyConn) SetReadDeadline(t time.Time) error  { return nil }
+func (c *notifyConn) SetWriteDeadline(t time.Time) error { return nil }
+
+func domainOf(l []string) dns.Name {
+	var dom dns.Name
+	for _, s := range l {
+		b, _ := hex.DecodeString(s)
+		dom = append(dom, b)
+	}
+	return dom
+}
+
+func batch(c vcase, r *vres) {
+	n := len(c.Items)
+	if n == 0 {
+		return
+	}
+	data, input, afterEnc := batchInputs(c)
+	switch c.Items[0].Op {
+	case "encname": // DNSPacketConn.encodeName: k names from one DNSPacketConn, all kept, then looked at
+		pc := &DNSPacketConn{domain: domainOf(c.Domain)}
+		r.Items = runBatch(c, afterEnc,
+			func(i int) ([]byte, error) { return data[i], nil },
+			func(i int, b []byte) (interface{}, error) { return pc.encodeName(b) },
+			func(i int, v interface{}, r *vres) {
+				r.Labels = []string{}
+				for _, l := range v.(dns.Name) {
+					r.Labels = append(r.Labels, hex.EncodeToString(l))
+				}
+			})
+		for i := range r.Items { // decoder-only shape: the outcome of the one call
+			r.Items[i].Ok, r.Items[i].Err = r.Items[i].Ok2, r.Items[i].Err2
+		}
+	case "send": // the real path WriteTo -> queue -> sendLoop -> send on ONE DNSPacketConn; the caller may reuse its buffer
+		cc := newNotifyConn(nil)
+		pc := NewDNSPacketConn(cc, queuepacketconn.DummyAddr{}, domainOf(c.Domain))
+		r.Items = make([]vres, n)
+		accepted := 0
+		for i := 0; i < n; i++ {
+			_, err := pc.WriteTo(input(i), queuepacketconn.DummyAddr{})
+			r.Items[i].Ok, r.Items[i].Err = err == nil, errStr(err)
+			if err == nil {
+				accepted++
+			}
+		}
+		afterEnc()
+		deadline := time.After(20 * time.Second)
+	wait:
+		for got := 0; got < accepted; got++ {
+			select {
+			case <-cc.wroteCh:
+			case <-deadline:
+				break wait
+			}
+		}
+		cc.mu.Lock()
+		k := 0
+		for i := range r.Items {
+			if r.Items[i].Ok && k < len(cc.wrote) {
+				r.Items[i].Out = hex.EncodeToString(cc.wrote[k])
+				k++
+			}
+		}
+		if len(cc.wrote) != accepted {
+			r.Err = fmt.Sprintf("%d packets accepted, %d datagrams written", accepted, len(cc.wrote))
+		}
+		cc.mu.Unlock()
+		cc.Close()
+		pc.Close()
+	}
+	r.Ok = true
+}
+
+// rburst: k responses reach DNSPacketConn.recvLoop back to back; the payloads are read from the queue afterwards
+func rburst(c vcase, r *vres) {
+	dom := domainOf(c.Domain)
+	var script [][]byte
+	for i, it := range c.Items {
+		p, _ := hex.DecodeString(it.Data)
+		name := append(dns.Name{[]byte(fmt.Sprintf("q%d", i))}, dom...)
+		m := &dns.Message{ID: uint16(i + 1), Flags: 0x8400,
+			Question: []dns.Question{{Name: name, Type: dns.RRTypeTXT, Class: dns.ClassIN}},
+			Answer:   []dns.RR{{Name: name, Type: dns.RRTypeTXT, Class: dns.ClassIN, TTL: 60, Data: dns.EncodeRDataTXT(p)}}}
+		w, err := m.WireFormat()
+		if err != nil {
+			r.Err = "build: " + err.Error()
+			return
+		}
+		script = append(script, w)
+	}
+	cc := newNotifyConn(script)
+	pc := NewDNSPacketConn(cc, queuepacketconn.DummyAddr{}, dom)
+	defer pc.Close()
+	defer cc.Close()
+	select {
+	case <-cc.drained: // recvLoop has handled every datagram and asked for the next one
+	case <-time.After(20 * time.Second):
+		r.Err = "recvLoop did not read the script"
+		return
+	}
+	r.Msgs = []string{}
+	for range c.Items {
+		type pkt struct{ b []byte }
+		ch := make(chan pkt, 1)
+		go func() {
+			buf := make([]byte, 4096)
+			k, _, err := pc.ReadFrom(buf)
+			if err == nil {
+				ch <- pkt{buf[:k]}
+			}
+		}()
+		select {
+		case p := <-ch:
+			r.Msgs = append(r.Msgs, hex.EncodeToString(p.b))
+		case <-time.After(2 * time.Second):
+			r.Ok = true
+			return
+		}
+	}
+	r.Ok = true
+}
+
 func runCase(c vcase) (r vres) {
 	defer func() {
 		if p := recover(); p != nil {
@@ -185,6 +503,10 @@ func runCase(c vcase) (r vres) {
 	}()
 	d, _ := hex.DecodeString(c.Data)
 	switch c.Op {
+	case "batch":
+		batch(c, &r)
+	case "rburst":
+		rburst(c, &r)
 	case "chunks":
 		r.Ok = true
 		r.Chunks = []string{}
